@@ -248,6 +248,7 @@ func runHarness(ld *sym.Loaded, h harnessCfg, tier, outDir string) *hOutcome {
 		ScriptDir:  filepath.Join(outDir, "unknown"),
 		Thorough:   tier == "thorough",
 		MaxPaths:   h.MaxPaths,
+		Witnesses:  3,
 	}
 	e := sym.NewEngine(ld, c)
 	o.res = e.Explore(fn)
@@ -318,40 +319,45 @@ func nativePhase(ld *sym.Loaded, prop, tier string, outcomes []*hOutcome, outDir
 		// translator validation: random concrete assignments over the harness's input names
 		k := o.cfg.Validate
 		if k == 0 {
-			k = 2
+			k = 3
 			if tier == "thorough" {
 				k = 6
 			}
 		}
-		if k < 0 || len(o.res.InputNames) == 0 {
-			continue
+		if k < 0 || len(o.res.InputNames) == 0 || o.cfg.NoReplay {
+			continue // engine-only harnesses have no native counterpart to validate against
 		}
 		fn := ld.Harnesses[o.res.Harness]
 		for j := 0; j < k; j++ {
 			in := map[string][]uint64{}
-			for name, w := range o.res.InputNames {
-				base, idx := splitIdx(name)
-				arr := in[base]
-				for len(arr) <= idx {
-					arr = append(arr, 0)
+			if j < len(o.res.Witnesses) {
+				// a solver model of a completed path: satisfies every assumption of that path
+				in = o.res.Witnesses[j]
+			} else {
+				for name, w := range o.res.InputNames {
+					base, idx := splitIdx(name)
+					arr := in[base]
+					for len(arr) <= idx {
+						arr = append(arr, 0)
+					}
+					var v uint64
+					switch rng.Intn(4) {
+					case 0:
+						v = 0
+					case 1:
+						v = uint64(rng.Intn(4))
+					default:
+						v = rng.Uint64()
+					}
+					if w > 0 && w < 64 {
+						v &= (uint64(1) << uint(w)) - 1
+					}
+					if w == 0 {
+						v &= 1
+					}
+					arr[idx] = v
+					in[base] = arr
 				}
-				var v uint64
-				switch rng.Intn(4) {
-				case 0:
-					v = 0
-				case 1:
-					v = uint64(rng.Intn(4))
-				default:
-					v = rng.Uint64()
-				}
-				if w > 0 && w < 64 {
-					v &= (uint64(1) << uint(w)) - 1
-				}
-				if w == 0 {
-					v &= 1
-				}
-				arr[idx] = v
-				in[base] = arr
 			}
 			ce := sym.NewEngine(ld, sym.Config{Concrete: in, Thorough: tier == "thorough", Deadline: time.Now().Add(60 * time.Second)})
 			cr := ce.Explore(fn)
@@ -362,6 +368,9 @@ func nativePhase(ld *sym.Loaded, prop, tier string, outcomes []*hOutcome, outDir
 			f := filepath.Join(outDir, fmt.Sprintf("%s_val%d.json", o.res.Harness, j))
 			writeReplay(f, replayDoc{Harness: o.res.Harness, Tier: tier, Inputs: in})
 			it := &item{o: o, file: f, inputs: in, engObs: cr.Observes}
+			if cr.PathsPruned > 0 {
+				it.engObs = append(it.engObs, sym.ObserveRec{Label: "!engine-pruned"})
+			}
 			if len(cr.Violations) > 0 {
 				it.engObs = append(it.engObs, sym.ObserveRec{Label: "!engine-violation"})
 			}
@@ -444,6 +453,10 @@ func nativePhase(ld *sym.Loaded, prop, tier string, outcomes []*hOutcome, outDir
 					continue
 				}
 				// validation: compare observes
+				if r.status == "skip" && strings.Contains(r.detail, "native-unsupported") {
+					it.o.valSkipped++
+					continue
+				}
 				if r.status == "missing" {
 					it.o.valMismatch = append(it.o.valMismatch, "native run missing for "+it.file+": "+r.detail)
 					continue
@@ -468,14 +481,21 @@ func splitIdx(name string) (string, int) {
 }
 
 func compareObs(eng []sym.ObserveRec, r nativeResult) string {
-	engViol := false
+	engViol, engPruned := false, false
 	var engLines []string
 	for _, o := range eng {
 		if o.Label == "!engine-violation" {
 			engViol = true
 			continue
 		}
+		if o.Label == "!engine-pruned" {
+			engPruned = true
+			continue
+		}
 		engLines = append(engLines, strings.TrimSpace(o.Label+" "+strings.Join(o.Vals, " ")))
+	}
+	if (r.status == "skip") != engPruned {
+		return fmt.Sprintf("engine pruned=%v but native status=%s (%s)", engPruned, r.status, r.detail)
 	}
 	natFail := r.status == "fail" || r.status == "panic"
 	if engViol != natFail && r.status != "skip" {
